@@ -91,6 +91,15 @@ def rule_ascii_digit_scanners(ctx, rep, rid: str, modules: Tuple[str, ...], floo
             rep.bad(rid, key, f"{f.qual} selects characters with {norm(p0)} ({len(bad)} such test(s)) and parses the text with {short(parses[0], 30)}: superscript digits make the host parser raise ValueError out of eval, and digits of other scripts are accepted as if they were 0-9", f"{f.module.rel}:{p0.lineno}")
         else:
             rep.ok(rid, key, {"host_parse_calls": len(parses), "digit_predicates": len(preds)})
+    for m, call, text, cats in host_pattern_categories(ctx, modules=tuple(x for x in modules)):
+        n_fn += 1
+        key = f"{m.name}:pattern:{short(call.args[0], 30)}"
+        if text is None:
+            rep.ok(rid, key, {"note": "pattern text not constant: not judged"})
+        elif "digit" in cats:
+            rep.bad(rid, key, f"the host pattern {short(call, 50)} in {m.rel} uses \\d: in the host it matches the decimal digits of every script, so text such as '\\u0661\\u0662' passes the grammar and is converted by int()/float() as if it were 12 (ECMAScript's DecimalDigit is 0-9 only)", f"{m.rel}:{call.lineno}")
+        else:
+            rep.ok(rid, key, {"categories": sorted(cats)})
     if n_fn == 0:
         raise AnalysisError(f"no function that parses collected text with int()/float() found in {modules}")
 
@@ -371,8 +380,111 @@ def rule_sibling_index_readers(ctx, rep, rid: str) -> None:
             rep.bad(rid, key, f"{a} converts its index with `{sa_[0]}` under `{sa_[1]}` but {b} with `{sb_[0]}` under `{sb_[1]}`: the specification gives both the same steps (ToIntegerOrInfinity, then a two-sided range test), so for some argument (a negative one, say) one of them answers for the wrong position", fb.loc)
 
 
+# ---- host regular expressions applied to script text ------------------------------------------------------
+def _module_text_const(mod, e: ast.AST, depth: int = 0) -> Optional[str]:
+    """Text of a module-level pattern expression: literals, names bound to them, concatenations."""
+    if depth > 6:
+        return None
+    if isinstance(e, ast.Constant) and isinstance(e.value, str):
+        return e.value
+    if isinstance(e, ast.Name):
+        for st in mod.tree.body:
+            if isinstance(st, ast.Assign) and len(st.targets) == 1 and isinstance(st.targets[0], ast.Name) and st.targets[0].id == e.id:
+                return _module_text_const(mod, st.value, depth + 1)
+        return None
+    if isinstance(e, ast.BinOp) and isinstance(e.op, ast.Add):
+        a, b = _module_text_const(mod, e.left, depth + 1), _module_text_const(mod, e.right, depth + 1)
+        return None if a is None or b is None else a + b
+    if isinstance(e, ast.Call) and norm(e.func) == "re.escape" and len(e.args) == 1 and not e.keywords:
+        import re as _re
+
+        a = _module_text_const(mod, e.args[0], depth + 1)
+        return None if a is None else _re.escape(a)
+    return None
+
+
+def host_pattern_categories(ctx, modules=("vm", "context", "values", "lexer")) -> List[Tuple[object, ast.Call, str, Set[str]]]:
+    """Every host regular expression the engine compiles or applies (re.compile / re.match / ...), with the
+    character categories its pattern uses, read off the host's own parse of the pattern: 'digit' for \\d,
+    'space' for \\s, 'word' for \\w and \\b.  Those categories are Unicode-aware in the host and differ from
+    ECMAScript's classes."""
+    import re as _re
+
+    try:
+        from re import _parser as _sre  # 3.11+
+    except ImportError:  # pragma: no cover
+        import sre_parse as _sre
+    out = []
+    for m in ctx.tree.modules.values() if isinstance(ctx.tree.modules, dict) else ctx.tree.modules:
+        if m.name not in modules:
+            continue
+        for n in ast.walk(m.tree):
+            if not (isinstance(n, ast.Call) and norm(n.func) in ("re.compile", "re.match", "re.fullmatch", "re.search", "re.sub", "re.split", "re.findall", "re.finditer") and n.args):
+                continue
+            text = _module_text_const(m, n.args[0])
+            if text is None:
+                out.append((m, n, None, set()))
+                continue
+            cats: Set[str] = set()
+            ascii_flag = any("ASCII" in norm(a) or norm(a).endswith("re.A") for a in list(n.args[1:]) + [k.value for k in n.keywords])
+
+            def visit(items):
+                for op, av in items:
+                    name = str(op)
+                    if name == "IN":
+                        visit(av)
+                    elif name == "CATEGORY":
+                        c = str(av)
+                        if "DIGIT" in c:
+                            cats.add("digit")
+                        if "SPACE" in c:
+                            cats.add("space")
+                        if "WORD" in c:
+                            cats.add("word")
+                    elif name == "AT" and "BOUNDARY" in str(av):
+                        cats.add("word")
+                    elif name in ("SUBPATTERN",):
+                        visit(av[3])
+                    elif name in ("MAX_REPEAT", "MIN_REPEAT", "POSSESSIVE_REPEAT"):
+                        visit(av[2])
+                    elif name == "BRANCH":
+                        for alt in av[1]:
+                            visit(alt)
+                    elif name in ("ASSERT", "ASSERT_NOT"):
+                        visit(av[1])
+                    elif name == "ATOMIC_GROUP":
+                        visit(av)
+
+            try:
+                visit(_sre.parse(text))
+            except Exception:
+                out.append((m, n, None, set()))
+                continue
+            if ascii_flag:
+                cats.discard("digit")
+                cats.discard("word")
+            out.append((m, n, text, cats))
+    return out
+
+
+def _control_pattern_categories() -> None:
+    class _M:
+        name = "values"
+        tree = ast.parse("import re\nD = r'[0-9]'\nP = re.compile(r'\\s*(' + D + r'\\d+)')\n")
+
+    class _T:
+        modules = [_M]
+
+    class _C:
+        tree = _T
+
+    got = host_pattern_categories(_C, modules=("values",))
+    if len(got) != 1 or got[0][3] != {"space", "digit"}:
+        raise AnalysisError(f"positive control failed: host pattern categories {got}")
+
+
 # ---- the host's white space is not ECMAScript's ---------------------------------------------------------
-def rule_script_whitespace(ctx, rep, rid: str, only=None) -> None:
+def rule_script_whitespace(ctx, rep, rid: str, only=None, pattern_modules: Tuple[str, ...] = ("vm", "context", "values")) -> None:
     """str.strip()/lstrip()/rstrip()/split() without an argument and str.isspace() use the host's white-space set:
     it includes U+001C..U+001F and U+0085, which ECMAScript does not trim, and lacks U+FEFF, which it does."""
     rep.rule(rid, "script strings are never trimmed or split on white space with the host's default set (bare str.strip/lstrip/rstrip/split, str.isspace): ECMAScript's WhiteSpace and LineTerminator set differs from it in both directions", floor=1)
@@ -393,6 +505,17 @@ def rule_script_whitespace(ctx, rep, rid: str, only=None) -> None:
                     rep.ok(rid, key, {"set": short(n.args[0], 30)})
                 else:
                     rep.bad(rid, key, f"{f.qual} uses {short(n, 40)}: the host's white-space set keeps U+FEFF and removes U+001C..U+001F, unlike ECMAScript's (\"\\ufeffa\".trim() keeps the BOM)", f"{f.module.rel}:{n.lineno}")
+    # host patterns applied to script text: \s is the host's white-space set as well
+    _control_pattern_categories()
+    for m, call, text, cats in host_pattern_categories(ctx, modules=pattern_modules):
+        n_sites += 1
+        key = f"{m.name}:pattern:{short(call.args[0], 30)}"
+        if text is None:
+            rep.ok(rid, key, {"note": "pattern text not constant: not judged"})
+        elif "space" in cats:
+            rep.bad(rid, key, f"the host pattern {short(call, 50)} in {m.rel} uses \\s: the host's white-space class lacks U+FEFF and contains U+001C..U+001F and U+0085, unlike ECMAScript's WhiteSpace and LineTerminator (so '\\ufeff3.5' and '\\u00853.5' are read differently from what ToNumber and parseInt do)", f"{m.rel}:{call.lineno}")
+        else:
+            rep.ok(rid, key, {"categories": sorted(cats)})
     rep.ok(rid, "whitespace-sites", {"examined": n_sites})
 
 
@@ -534,3 +657,332 @@ def rule_host_parser_text_admitted(ctx, rep, rid: str, modules: Tuple[str, ...] 
                 rep.bad(rid, key, f"{f.qual} hands `{a0.id}` to the host's {c.func.id}() after collecting it with `{short(bad, 40)}` (line {bad.lineno}) without testing that character against constants: the host accepts a sign, blanks and underscores, so text such as '+1' or '1_0' is taken for digits (and text it rejects raises a host ValueError unless the site handles it)", f"{f.module.rel}:{bad.lineno}")
     if n < floor:
         raise AnalysisError(f"{rid}: only {n} host number conversions of collected text found")
+
+
+# ---- decimal text of script-controlled length is not handed to int() -------------------------------------
+_INT_TEXT_LIMIT = 4300  # CPython's default sys.int_max_str_digits: int() of longer decimal text raises ValueError
+
+
+def _small_const(e: ast.AST) -> Optional[int]:
+    if isinstance(e, ast.Constant) and isinstance(e.value, int) and not isinstance(e.value, bool):
+        return e.value
+    return None
+
+
+def _length_bounded(site: ast.Call, operand: ast.AST, f: Func) -> Optional[str]:
+    """Why the text operand of int() cannot be longer than the host accepts: a constant-width slice, or a test of
+    len(<the text>) against a constant that holds on the way to the site."""
+    from ..util import known_conditions
+
+    if isinstance(operand, ast.Subscript) and isinstance(operand.slice, ast.Slice):
+        lo, hi = operand.slice.lower, operand.slice.upper
+        if hi is not None and _small_const(hi) is not None and (lo is None or _small_const(lo) is not None):
+            return f"constant slice {short(operand, 30)}"
+        # x[i : i + K]
+        if lo is not None and isinstance(hi, ast.BinOp) and isinstance(hi.op, ast.Add) and norm(hi.left) == norm(lo) and _small_const(hi.right) is not None:
+            return f"slice of {_small_const(hi.right)} characters"
+    names = {x.id for x in ast.walk(operand) if isinstance(x, ast.Name)}
+    for tst, pol in known_conditions(site, f.node):
+        for a, p in atoms(tst, pol):
+            if not (isinstance(a, ast.Compare) and len(a.ops) == 1):
+                continue
+            l, r, op = a.left, a.comparators[0], a.ops[0]
+            if isinstance(r, ast.Call) and norm(r.func) == "len":  # K >= len(x)
+                l, r = r, l
+                op = {ast.Gt: ast.Lt, ast.GtE: ast.LtE, ast.Lt: ast.Gt, ast.LtE: ast.GtE}.get(type(op), type(op))()
+            if not (isinstance(l, ast.Call) and norm(l.func) == "len" and l.args and isinstance(l.args[0], ast.Name) and l.args[0].id in names):
+                continue
+            k = _small_const(r)
+            if k is None or k > _INT_TEXT_LIMIT:
+                continue
+            if (p and isinstance(op, (ast.Lt, ast.LtE, ast.Eq))) or (not p and isinstance(op, (ast.Gt, ast.GtE))):
+                return f"len({l.args[0].id}) bounded by {k}"
+    return None
+
+
+def _catches_value_error(tr: ast.Try) -> bool:
+    for h in tr.handlers:
+        if h.type is None:
+            return True
+        hs = [norm(x).split(".")[-1] for x in (h.type.elts if isinstance(h.type, ast.Tuple) else [h.type])]
+        if any(x in ("ValueError", "Exception", "BaseException") for x in hs):
+            return True
+    return False
+
+
+def _locally_covered(node: ast.AST, f: Func) -> bool:
+    from ..util import try_handlers_enclosing
+
+    scope = f
+    while scope is not None:
+        for tr, in_body in try_handlers_enclosing(node, scope.node):
+            if in_body and _catches_value_error(tr):
+                return True
+        node, scope = scope.node, scope.parent
+    return False
+
+
+def _value_error_covered(ctx, node: ast.AST, f: Func, seen: Set[int], depth: int = 0) -> bool:
+    """A ValueError raised at node does not leave the library: a try around it catches it, here or in every caller
+    (greatest fixpoint over the call graph: a cycle adds no new way in; an entry point without callers is uncovered)."""
+    if _locally_covered(node, f):
+        return True
+    memo = ctx.__dict__.setdefault("_verr_uncovered", None)
+    if memo is None:
+        sr = ctx.facts.script_reachable()
+
+        def live(g: Func) -> bool:
+            """Runs during an evaluation: reachable from script code, or an entry point of the embedding API."""
+            return id(g) in sr or (g.cls is not None and g.cls.name == "Context" and not g.name.startswith("_") and g.parent is None)
+
+        callers: Dict[int, List] = {}
+        for cs in ctx.cg.sites:
+            if not live(cs.func):
+                continue
+            for t in cs.targets:
+                callers.setdefault(id(t), []).append(cs)
+        # uncovered(g): g is live and has no live caller (an entry point, or called by the interpreter through a table),
+        # or some call of g is not locally covered and its caller is uncovered
+        uncovered: Set[int] = set()
+        for g in ctx.tree.funcs:
+            if live(g) and not callers.get(id(g)):
+                uncovered.add(id(g))
+        changed = True
+        while changed:
+            changed = False
+            for gid, css in callers.items():
+                if gid in uncovered:
+                    continue
+                if any(id(cs.func) in uncovered and not _locally_covered(cs.call, cs.func) for cs in css):
+                    uncovered.add(gid)
+                    changed = True
+        memo = ctx.__dict__["_verr_uncovered"] = uncovered
+    return id(f) not in memo
+
+
+def rule_decimal_text_length_bounded(ctx, rep, rid: str, floor: int = 3) -> None:
+    """CPython refuses to convert decimal text of more than 4300 digits with int() (ValueError, since 3.11; bases that
+    are powers of two are exempt).  Source text, script strings and JSON text are as long as the script likes, so a
+    digit run handed to int() needs a length bound, a handler, or a conversion that has no limit (float())."""
+    rep.rule(rid, "decimal text whose length the script controls (numeric literals, digit strings converted by ToNumber, index-like property keys, counts and group numbers in patterns, integer tokens given to a host parser hook) is handed to the host's int() only under a bound on its length or inside a handler for ValueError that every path to the site passes: int() of more than 4300 decimal digits raises ValueError", floor=floor)
+    n = 0
+    for f in ctx.tree.funcs:
+        if isinstance(f.node, ast.Lambda):
+            continue
+        texty = _text_names(f)
+        # a parameter that the function treats as text (x.isdigit(), PATTERN.match(x)) is text
+        params = set(f.params())
+        for c in f.own_nodes():
+            if isinstance(c, ast.Call) and isinstance(c.func, ast.Attribute):
+                if c.func.attr in ("isdigit", "isascii", "startswith", "isdecimal") and isinstance(c.func.value, ast.Name) and c.func.value.id in params:
+                    texty.add(c.func.value.id)
+                if c.func.attr in ("match", "fullmatch") and c.args and isinstance(c.args[0], ast.Name) and c.args[0].id in params:
+                    texty.add(c.args[0].id)
+        for c in f.own_nodes():
+            if not (isinstance(c, ast.Call) and isinstance(c.func, ast.Name) and c.func.id == "int" and c.args and not c.keywords):
+                continue
+            if len(c.args) == 2:
+                b = _small_const(c.args[1])
+                if b != 10:
+                    continue  # a power-of-two base has no limit; a computed base is judged by the radix rules
+            a = c.args[0]
+            is_text = (isinstance(a, ast.Name) and a.id in texty) or (isinstance(a, ast.Subscript) and isinstance(a.slice, ast.Slice) and isinstance(a.value, ast.Name) and a.value.id in texty) or (isinstance(a, ast.Call) and isinstance(a.func, ast.Attribute) and a.func.attr in ("group", "join", "strip", "lstrip", "rstrip"))
+            if not is_text:
+                continue
+            n += 1
+            key = f"{f.qual}:{short(c, 30)}"
+            why = _length_bounded(c, a, f)
+            if why is not None:
+                rep.ok(rid, key, {"bounded": why})
+            elif _value_error_covered(ctx, c, f, set()):
+                rep.ok(rid, key, {"handled": "a handler for ValueError encloses every path to the site"})
+            else:
+                rep.bad(rid, key, f"{f.qual} converts the text `{short(a, 30)}` with {short(c, 30)}: the text is as long as the script makes it, and the host's int() raises ValueError for more than {_INT_TEXT_LIMIT} decimal digits (a numeric literal, digit string or key of 5000 digits), which leaves eval as a host exception; read it with float(), bound its length, or handle the error", f"{f.module.rel}:{c.lineno}")
+    # the host JSON parser converts integer tokens with int() itself unless it is given a hook
+    for f in ctx.tree.funcs:
+        if isinstance(f.node, ast.Lambda):
+            continue
+        for c in f.own_nodes():
+            if isinstance(c, ast.Call) and norm(c.func) == "json.loads":
+                n += 1
+                key = f"{f.qual}:json.loads:integer-tokens"
+                hook = [kw for kw in c.keywords if kw.arg == "parse_int"]
+                if hook or _value_error_covered(ctx, c, f, set()):
+                    rep.ok(rid, key, {"hook": norm(hook[0].value) if hook else None})
+                else:
+                    rep.bad(rid, key, f"{f.qual} lets json.loads convert integer tokens with the host's int(): a token of more than {_INT_TEXT_LIMIT} digits raises ValueError out of eval", f"{f.module.rel}:{c.lineno}")
+    rep.analysed["int_text_sites"] = n
+    if n < floor:
+        raise AnalysisError(f"{rid}: only {n} int(text) sites recognised (floor {floor})")
+
+
+# ---- a raw script number used as a host subscript is range-tested on both sides ---------------------------
+def _int_narrowed(test: ast.AST, pol: bool) -> Set[str]:
+    """Names that the condition (known to be `pol`) narrows to a host int: type(k) is int, isinstance(k, int)."""
+    out: Set[str] = set()
+    for a, p in atoms(test, pol):
+        if not p:
+            continue
+        if isinstance(a, ast.Compare) and len(a.ops) == 1 and isinstance(a.ops[0], (ast.Is, ast.Eq)) and isinstance(a.left, ast.Call) and norm(a.left.func) == "type" and a.left.args and isinstance(a.left.args[0], ast.Name) and norm(a.comparators[0]) == "int":
+            out.add(a.left.args[0].id)
+        if isinstance(a, ast.Call) and norm(a.func) == "isinstance" and len(a.args) == 2 and isinstance(a.args[0], ast.Name):
+            ks = [norm(x) for x in (a.args[1].elts if isinstance(a.args[1], ast.Tuple) else [a.args[1]])]
+            if "int" in ks and all(k in ("int", "bool") for k in ks):
+                out.add(a.args[0].id)
+    return out
+
+
+def _subscript_bounds(f_node: ast.AST, use: ast.AST, k: str, base: str) -> Tuple[bool, bool]:
+    """(lower bound known, upper bound known) for the index name k of base[k] from the conditions that hold at use."""
+    from ..util import known_conditions
+
+    lo = hi = False
+    for t, pol in known_conditions(use, f_node):
+        for a, p in atoms(t, pol):
+            if not isinstance(a, ast.Compare):
+                continue
+            terms = [a.left] + list(a.comparators)
+            for i, op in enumerate(a.ops):
+                l, r = norm(terms[i]).replace(" ", ""), norm(terms[i + 1]).replace(" ", "")
+                if len(a.ops) > 1 and not p:
+                    continue  # a false chain says nothing about either side
+                # lower bound
+                if (p and ((l == "0" and r == k and isinstance(op, (ast.LtE, ast.Lt))) or (l == k and r in ("0", "-1") and isinstance(op, (ast.GtE, ast.Gt)) and not (r == "0" and False)))) or (not p and l == k and r == "0" and isinstance(op, ast.Lt)):
+                    lo = True
+                # upper bound
+                if (p and l == k and r == f"len({base})" and isinstance(op, ast.Lt)) or (not p and l == k and r == f"len({base})" and isinstance(op, ast.GtE)) or (p and l == f"len({base})" and r == k and isinstance(op, ast.Gt)):
+                    hi = True
+    return lo, hi
+
+
+def rule_raw_number_subscripts(ctx, rep, rid: str, modules: Tuple[str, ...] = ("vm", "values", "context")) -> None:
+    """A fast path that takes a script value, finds it to be a host int (type(key) is int) and uses it as the
+    subscript of a host string or list skips the decimal-key parser, which only ever yields canonical non-negative
+    indices: the raw int can be negative (Python then counts from the end, and raises IndexError below -len) and
+    needs both sides of the range test."""
+    rep.rule(rid, "where a parameter that a type test has just narrowed to a host int is used as the subscript of a host string or element list, both `0 <= i` and `i < len(..)` hold on the way to the subscript: a raw script number can be negative, which the host reads as an offset from the end (a wrong element) or refuses with IndexError below -len", floor=0)
+    # positive control
+    ctl = ast.parse("def get(obj, key):\n    if type(key) is int:\n        if isinstance(obj, str) and key < len(obj):\n            return obj[key]\n")
+    for n_ in ast.walk(ctl):
+        for ch in ast.iter_child_nodes(n_):
+            ch._parent = n_
+    sub = next(x for x in ast.walk(ctl) if isinstance(x, ast.Subscript))
+    from ..util import known_conditions
+
+    narrowed = set()
+    for t, pol in known_conditions(sub, ctl.body[0]):
+        narrowed |= _int_narrowed(t, pol)
+    if narrowed != {"key"} or _subscript_bounds(ctl.body[0], sub, "key", "obj") != (False, True):
+        raise AnalysisError(f"{rid}: positive control failed")
+    examined = judged = 0
+    for f in ctx.tree.funcs:
+        if isinstance(f.node, ast.Lambda) or f.module.name not in modules:
+            continue
+        params = set(f.params()) - {"self"}
+        if not params:
+            continue
+        for n in f.own_nodes():
+            if not (isinstance(n, ast.Subscript) and isinstance(n.ctx, ast.Load) and not isinstance(n.slice, ast.Slice)):
+                continue
+            examined += 1
+            if not (isinstance(n.slice, ast.Name) and n.slice.id in params):
+                continue
+            k = n.slice.id
+            conds = known_conditions(n, f.node)
+            nar: Set[str] = set()
+            for t, pol in conds:
+                nar |= _int_narrowed(t, pol)
+            if k not in nar:
+                continue
+            base = norm(n.value)
+            is_seq = base.endswith("._elements") or base.endswith("._data") or any(pol and any(isinstance(a, ast.Call) and norm(a.func) == "isinstance" and len(a.args) == 2 and norm(a.args[0]) == base and norm(a.args[1]) in ("str", "list", "tuple", "bytes", "bytearray") and p for a, p in atoms(t, pol)) for t, pol in conds)
+            if not is_seq:
+                continue
+            judged += 1
+            key = f"{f.qual}:{base}[{k}]"
+            lo, hi = _subscript_bounds(f.node, n, k, base)
+            if lo and hi:
+                rep.ok(rid, key)
+            else:
+                miss = " and ".join(w for w, have in ((f"0 <= {k}", lo), (f"{k} < len({base})", hi)) if not have)
+                rep.bad(rid, key, f"{f.qual} reads {base}[{k}] where `{k}` is the raw script value that a type test has just found to be a host int, without `{miss}` on the way: a negative number is read as an offset from the end (\"abc\"[-1] gives \"c\" instead of undefined) and one below -len raises the host's IndexError out of eval", f"{f.module.rel}:{n.lineno}")
+    rep.ok(rid, "raw-number-subscripts", {"subscripts_examined": examined, "with_a_raw_narrowed_index": judged})
+    if examined < 50:
+        raise AnalysisError(f"{rid}: only {examined} subscripts examined")
+
+
+# ---- the one position argument for which "not a number" does not mean 0 -----------------------------------
+# String.prototype.lastIndexOf: numPos = ToNumber(position); if numPos is NaN, pos = +Infinity (ECMA-262 22.1.3.10).
+# Every other position argument goes through ToIntegerOrInfinity, for which NaN is 0.
+NAN_MEANS_END = {"lastIndexOf": "String.prototype.lastIndexOf step 4-5: a position that converts to NaN is +Infinity"}
+
+
+def _is_nan_test(e: ast.AST) -> bool:
+    for x in ast.walk(e):
+        if isinstance(x, ast.Compare) and len(x.ops) == 1 and isinstance(x.ops[0], ast.NotEq) and norm(x.left) == norm(x.comparators[0]):
+            return True
+        if isinstance(x, ast.Call) and norm(x.func).split(".")[-1] in ("isnan", "is_nan"):
+            return True
+    return False
+
+
+def _nan_yields(g: Func, bind: Dict[str, str]) -> List[str]:
+    """Expressions (parameters replaced by what the caller passed) that g's position takes under a NaN test."""
+    out: List[str] = []
+
+    def res(e: ast.AST) -> str:
+        t = norm(e)
+        return bind.get(t, t)
+
+    for n in g.own_nodes():
+        if isinstance(n, ast.If) and _is_nan_test(n.test):
+            for st in n.body:
+                if isinstance(st, ast.Assign):
+                    out.append(res(st.value))
+                if isinstance(st, ast.Return) and st.value is not None:
+                    out.append(res(st.value))
+        if isinstance(n, ast.IfExp) and _is_nan_test(n.test):
+            out.append(res(n.body))
+    return out
+
+
+def rule_nan_position_means_end(ctx, rep, rid: str) -> None:
+    rep.rule(rid, "String.prototype.lastIndexOf gives a position that converts to NaN the value it uses for a missing position (the end of the string): the native, or the helper it hands its arguments to, has a NaN test on the converted position whose outcome is that default; ToIntegerOrInfinity alone makes NaN 0", floor=1)
+    n = 0
+    for f in ctx.tree.funcs:
+        if isinstance(f.node, ast.Lambda) or f.name not in NAN_MEANS_END or f.parent is None or f.parent.name != "_make_string_method":
+            continue
+        n += 1
+        key = f"{f.qual}:position:NaN"
+        # the default for a missing position: `X if len(args) > 1 else D`, or the default handed to a helper h(args, 1, D)
+        defaults: List[str] = []
+        helpers: List[Tuple[Func, Dict[str, str]]] = []
+        for x in f.own_nodes():
+            if isinstance(x, ast.IfExp) and "len(args)" in norm(x.test) and any(isinstance(s_, ast.Subscript) and norm(s_.value) == "args" for s_ in ast.walk(x.body)):
+                defaults.append(norm(x.orelse))
+            if isinstance(x, ast.Call) and isinstance(x.func, ast.Name) and any(isinstance(a, ast.Name) and a.id == "args" for a in x.args):
+                g = None
+                h = f
+                while h is not None and g is None:
+                    g = h.children.get(x.func.id)
+                    h = h.parent
+                if g is not None and not isinstance(g.node, ast.Lambda):
+                    ps = [p for p in g.params() if p != "self"]
+                    bind = {ps[i]: norm(a) for i, a in enumerate(x.args) if i < len(ps)}
+                    helpers.append((g, bind))
+                    # the helper's default parameter, as passed here
+                    for p_, v in bind.items():
+                        if "default" in p_ or p_ in ("missing", "fallback"):
+                            defaults.append(v)
+        if not defaults:
+            raise AnalysisError(f"{rid}: the default of the missing position in {f.qual} was not recognised")
+        yields = _nan_yields(f, {})
+        for g, bind in helpers:
+            yields += _nan_yields(g, bind)
+        if any(y in defaults for y in yields):
+            rep.ok(rid, key, {"missing_position": defaults, "nan_position": yields})
+        else:
+            where = f.qual + ("" if not helpers else " / " + ", ".join(g.name for g, _ in helpers))
+            rep.bad(rid, key, f"{where}: the position of lastIndexOf is converted like every other position, so one that is not a number (NaN, 'x', an object) becomes 0 and the search runs backwards from the start; {NAN_MEANS_END[f.name]} - 'abcabc'.lastIndexOf('c', NaN) is 5, not -1 (missing position: {defaults[0]}; under a NaN test: {yields or 'nothing'})", f.loc)
+    if n == 0:
+        raise AnalysisError(f"{rid}: String lastIndexOf native not found")
